@@ -16,10 +16,14 @@ func harnessC10DurableReadChain() {
 	vAssert(err == nil, "store-opens")
 	n := vInt(0, N)
 	perCall := vBool()
+	zeroAt := vInt(-1, N-1) // this event carries the zero time
 	var offs []eventbus.Offset
 	recs := make([]dsRec, 0, n)
 	for i := 0; i < n; i++ {
 		r := dsRec{typ: vStr("type"), data: []byte{'0' + byte(i)}, ts: time.Unix(int64(1000+i), 0).UTC()}
+		if i == zeroAt {
+			r.ts = time.Time{} // an event without a timestamp is a valid event too
+		}
 		actx, acancel := context.WithCancel(bg)
 		o, aerr := st.Append(actx, &eventbus.Event{Type: r.typ, Data: r.data, Timestamp: r.ts})
 		if perCall {
